@@ -10,9 +10,17 @@ import (
 )
 
 // vPipe: an in-memory, in-order byte pipe standing for the socket.
-type vPipe struct{ buf bytes.Buffer }
+type vPipe struct {
+	buf     bytes.Buffer
+	segment int // > 0: the transport hands over at most this many bytes per Read (TCP segment boundaries)
+}
 
-func (p *vPipe) Read(b []byte) (int, error)  { return p.buf.Read(b) }
+func (p *vPipe) Read(b []byte) (int, error) {
+	if p.segment > 0 && len(b) > p.segment {
+		b = b[:p.segment]
+	}
+	return p.buf.Read(b)
+}
 func (p *vPipe) Write(b []byte) (int, error) { return p.buf.Write(b) }
 func (p *vPipe) Close() error                { return nil }
 
@@ -44,7 +52,9 @@ func vC20Msg(tag string, l int) []byte {
 // N1: what Write sends, Read delivers - for every caller buffer size, with the returned n equal
 // to the bytes actually copied (the stream position advances by exactly n).
 func VerifHarness_C20_N1_stream_read_write() {
-	snd, rcv, _ := vC20Pair()
+	snd, rcv, pipe := vC20Pair()
+	// the transport may hand a sealed frame over in pieces
+	pipe.segment = []int{0, 1000, 17}[vNondetLen("transport-segment", 0, 2)]
 	lens := []int{0, 1, 3, 1023, 1024, 1025, 2050}
 	l := lens[vNondetLen("len", 0, vParam("LI", 3))]
 	msg := vC20Msg("msg", l)
